@@ -934,15 +934,8 @@ var statusPattern = regexp.MustCompile(`(?i)(http|status:?|code:?) %d`)
 func c17ErrorText(c *Ctx, exec *ssa.Function) {
 	// operations handed to retry.Execute and everything they call synchronously
 	var ops []*ssa.Function
-	for _, e := range ir.Callers(c.G, exec) {
-		if e.Site == nil {
-			continue
-		}
-		for _, a := range e.Site.Common().Args {
-			if f := funcValue(a); f != nil {
-				ops = append(ops, f)
-			}
-		}
+	for _, ro := range retryOps(c, exec) {
+		ops = append(ops, ro.op)
 	}
 	if len(ops) < 2 {
 		c.R.Break("expected at least two transports to wrap their send in retry.Execute (found %d)", len(ops))
@@ -1453,15 +1446,8 @@ func c17TypedErrorsWrapped(c *Ctx, classify *ssa.Function) {
 	// only what a retried operation can return is classified
 	var ops []*ssa.Function
 	if exec := c.P.Func(retryPkg, "Execute"); exec != nil {
-		for _, e := range ir.Callers(c.G, exec) {
-			if e.Site == nil {
-				continue
-			}
-			for _, a := range e.Site.Common().Args {
-				if f := funcValue(a); f != nil {
-					ops = append(ops, f)
-				}
-			}
+		for _, ro := range retryOps(c, exec) {
+			ops = append(ops, ro.op)
 		}
 	}
 	retried := c.ReachSync(ops...)
@@ -1533,22 +1519,75 @@ func c17TypedErrorsWrapped(c *Ctx, classify *ssa.Function) {
 // c17NoNestedRetry (R-attempt-bound): an operation handed to the retry executor does not itself run the retry executor
 // (a policy applied by the client AND by the transport makes (MaxRetries+1)^2 attempts and restarts the backoff sequence).
 func c17NoNestedRetry(c *Ctx, exec *ssa.Function) {
-	n := 0
-	for _, e := range ir.Callers(c.G, exec) {
-		if e.Site == nil || !c.P.IsLib(e.Caller.Func) {
-			continue
-		}
-		for _, a := range e.Site.Common().Args {
-			op := funcValue(a)
-			if op == nil {
+	for _, ro := range retryOps(c, exec) {
+		nested := c.ReachSync(ro.op)[exec]
+		c.R.Check(!nested, "R-attempt-bound", "operation retried by "+fname(ro.by)+" does not retry itself", c.Pos(ro.site.Pos()),
+			"the operation makes a single attempt",
+			sprintf("the operation %s hands to the retry executor reaches the retry executor again (the transport retries inside the client's retry): up to (MaxRetries+1)^2 attempts, and the wait sequence restarts after every outer wait", fname(ro.by)))
+	}
+}
+
+// retryOps: the operations that are retried — function values handed to the retry executor, directly or through a
+// helper that forwards one of its own parameters to it (withRetry(ctx, cfg, name, op)).
+type retryOp struct {
+	op   *ssa.Function
+	by   *ssa.Function // the function that supplies the operation
+	site ssa.CallInstruction
+}
+
+func retryOps(c *Ctx, exec *ssa.Function) []retryOp {
+	var out []retryOp
+	var collect func(callee *ssa.Function, idx int, d int)
+	collect = func(callee *ssa.Function, idx int, d int) {
+		for _, e := range ir.Callers(c.G, callee) {
+			if e.Site == nil || !c.P.IsLib(e.Caller.Func) {
 				continue
 			}
-			n++
-			nested := c.ReachSync(op)[exec]
-			c.R.Check(!nested, "R-attempt-bound", "operation retried by "+fname(e.Caller.Func)+" does not retry itself", c.Pos(e.Site.Pos()),
-				"the operation makes a single attempt",
-				sprintf("the operation %s hands to the retry executor reaches the retry executor again (the transport retries inside the client's retry): up to (MaxRetries+1)^2 attempts, and the wait sequence restarts after every outer wait", fname(e.Caller.Func)))
+			args := e.Site.Common().Args
+			for i, a := range args {
+				if idx >= 0 && i != idx {
+					continue
+				}
+				if f := funcValue(a); f != nil {
+					out = append(out, retryOp{f, e.Caller.Func, e.Site})
+					// an adapter closure around a function the enclosing helper was handed (operation := func() error
+					// { result, err = op(); return err }): the retried operations are what the helper's callers pass
+					if mc, ok := a.(*ssa.MakeClosure); ok && d < 2 {
+						for _, b := range mc.Bindings {
+							var src ssa.Value = b
+							if al, ok := b.(*ssa.Alloc); ok {
+								for _, r := range *al.Referrers() {
+									if st, ok := r.(*ssa.Store); ok && st.Addr == ssa.Value(al) {
+										src = st.Val
+									}
+								}
+							}
+							if p, ok := src.(*ssa.Parameter); ok {
+								if _, isSig := p.Type().Underlying().(*types.Signature); isSig {
+									for j, q := range e.Caller.Func.Params {
+										if q == p {
+											collect(e.Caller.Func, j, d+1)
+										}
+									}
+								}
+							}
+						}
+					}
+					continue
+				}
+				if p, ok := a.(*ssa.Parameter); ok && d < 2 {
+					if _, isSig := p.Type().Underlying().(*types.Signature); isSig {
+						for j, q := range e.Caller.Func.Params {
+							if q == p {
+								collect(e.Caller.Func, j, d+1)
+							}
+						}
+					}
+				}
+			}
 		}
 	}
-	_ = n
+	collect(exec, -1, 0)
+	sort.Slice(out, func(i, j int) bool { return out[i].site.Pos() < out[j].site.Pos() })
+	return out
 }
